@@ -143,6 +143,10 @@ pub enum StepResult {
 pub struct RState {
     pub scalars: Scalars,
     pub mem: ByteModel,
+    /// lift-sim only: an intrinsic (an instruction the lifter does not model) is an opaque
+    /// step that changes nothing, so that runs can continue past it on both sides. The
+    /// executor semantics (C07) keep it an error.
+    pub intrinsics_are_nops: bool,
 }
 
 fn stuck_str(s: &Stuck) -> String {
@@ -312,7 +316,13 @@ pub fn exec_op(op: &il::Operation, st: &mut RState) -> OpResult {
             },
             Err(s) => OpResult::Stuck(stuck_str(&s)),
         },
-        O::Intrinsic { .. } => OpResult::Stuck("intrinsic".into()),
+        O::Intrinsic { .. } => {
+            if st.intrinsics_are_nops {
+                OpResult::Fall
+            } else {
+                OpResult::Stuck("intrinsic".into())
+            }
+        }
         O::Nop { .. } => OpResult::Fall,
     }
 }
